@@ -79,9 +79,11 @@ def replay_table_pp(model, n=4, descending=False, series=False):
     return bad, {"what": f"fluids.pseudopressure = {got.tolist()} vs trapezoid rule of 2p/(mu Z) = {want.tolist()}", "inputs": m}
 
 
-def replay_hussainy(model):
+def replay_hussainy(model, pstd=None):
     import bluebonnet.fluids.gas as rg
     m = model_floats(model, ["T", "p", "Tpc", "ppc", "sg", "pstd", "q"], default=dict(T=300.0, p=3000.0, Tpc=-80.0, ppc=650.0, sg=0.7, pstd=14.7, q=1000.0))
+    if pstd is not None:
+        m["pstd"] = pstd          # a reference pressure written as a constant by the caller (0 psia: the integral from vacuum)
     cap = {}
     orig = rg.quad
 
@@ -159,12 +161,17 @@ def job_hussainy(job):
     def run(with_std):
         SS.OptCalls.reset()
         SS.reset_names()
-        v = gas.pseudopressure_Hussainy(*a5, vs["pstd"]) if with_std else gas.pseudopressure_Hussainy(*a5)
+        if with_std in ("zero", "int zero"):
+            v = gas.pseudopressure_Hussainy(*a5, Q(0) if with_std == "zero" else QI(0))
+        else:
+            v = gas.pseudopressure_Hussainy(*a5, vs["pstd"]) if with_std else gas.pseudopressure_Hussainy(*a5)
         return v, list(SS.OptCalls.quad)
 
-    for with_std in (True, False):
-        tag = "explicit standard pressure" if with_std else "default standard pressure"
-        lo_ = vs["pstd"] if with_std else K("14.70")
+    for with_std in (True, False, "zero", "int zero"):
+        tag = "explicit standard pressure" if with_std is True else "default standard pressure" if with_std is False else \
+            f"reference pressure 0 psia ({'float' if with_std == 'zero' else 'Python int'})"
+        lo_ = vs["pstd"] if with_std is True else K("14.70") if with_std is False else Q(0)
+        rp_h = replay_hussainy if with_std in (True, False) else (replay_hussainy, {"pstd": 0.0 if with_std == "zero" else 0})
         for k, pr in enumerate(paths(job, lambda: run(with_std), dom, catch=(Exception,))):
             if pr.exc is not None:
                 job.prove(f"hussainy[{tag}]/raises {type(pr.exc).__name__}[path{k}]", pr.pc, bound="gas box", replay=replay_hussainy_value, note=repr(pr.exc)[:100])
@@ -185,9 +192,9 @@ def job_hussainy(job):
             job.prove(f"hussainy[{tag}]/integrand==2p/(mu Z) at the caller's T, Tpc, ppc, gravity", pr.pc + [not_close(c["func"](q), want)],
                       bound="gas box", replay=replay_hussainy)
             job.prove(f"hussainy[{tag}]/integrand positive", pr.pc + [T.b_le0(P(c["func"](q)))], bound="gas box", replay=replay_hussainy)
-            lo = vs["pstd"] if with_std else K("14.70")
+            lo = lo_
             job.prove(f"hussainy[{tag}]/limits==(standard pressure, p)",
-                      pr.pc + [T.b_or(T.b_ne(P(c["a"]), P(lo)), T.b_ne(P(c["b"]), P(vs["p"])))], bound="gas box", replay=replay_hussainy)
+                      pr.pc + [T.b_or(T.b_ne(P(c["a"]), P(lo)), T.b_ne(P(c["b"]), P(vs["p"])))], bound="gas box", replay=rp_h)
             job.prove(f"hussainy[{tag}]/returns the integral", pr.pc + [T.b_ne(P(v), P(c["I"]))], bound="gas box", replay=replay_hussainy)
             job.prove(f"hussainy[{tag}]/reach", pr.pc, expect="sat")
 
